@@ -38,6 +38,52 @@ Inductive tree :=
 | TNone | TSome (t : tree)       (* opt *)
 | TMap (label : N) (t : tree).   (* map(p, f): f is named by a label, interpreted elsewhere *)
 
+(** positions inside a parse tree, for [verify] closures that compare two parsed components:
+    first / second component of a tuple, or the argument of a [map] *)
+Inductive dir := Fst | Snd | InMap.
+
+Fixpoint tget (p : list dir) (t : tree) : option tree :=
+  match p with
+  | [] => Some t
+  | d :: p' =>
+    match d, t with
+    | Fst, TPair a _ => tget p' a
+    | Snd, TPair _ b => tget p' b
+    | InMap, TMap _ a => tget p' a
+    | _, _ => None
+    end
+  end.
+
+Fixpoint str_eqb (a b : str) : bool :=
+  match a, b with
+  | [], [] => true
+  | x :: a', y :: b' => N.eqb x y && str_eqb a' b'
+  | _, _ => false
+  end.
+
+Fixpoint tree_eqb (a b : tree) : bool :=
+  match a, b with
+  | TStr x, TStr y => str_eqb x y
+  | TPair a1 a2, TPair b1 b2 => tree_eqb a1 b1 && tree_eqb a2 b2
+  | TList l1, TList l2 =>
+      (fix go (l1 l2 : list tree) : bool :=
+         match l1, l2 with
+         | [], [] => true
+         | x :: r1, y :: r2 => tree_eqb x y && go r1 r2
+         | _, _ => false
+         end) l1 l2
+  | TNone, TNone => true
+  | TSome x, TSome y => tree_eqb x y
+  | TMap l1 x, TMap l2 y => N.eqb l1 l2 && tree_eqb x y
+  | _, _ => false
+  end.
+
+Definition verify_eq (p1 p2 : list dir) (t : tree) : bool :=
+  match tget p1 t, tget p2 t with
+  | Some a, Some b => tree_eqb a b
+  | _, _ => false
+  end.
+
 Inductive pexpr :=
 | Tag (s : str)                           (* tag("..."), char('c') *)
 | Chars0 (p : cpred)                      (* split_at_position_complete, take_till, multispace0, digit0 *)
@@ -53,6 +99,7 @@ Inductive pexpr :=
 | Map (label : N) (e : pexpr)
 | TakeUntil (e : pexpr) (pat : str)
 | TakeExcept (e : pexpr) (pat : str)
+| VerifyEq (p1 p2 : list dir) (e : pexpr)  (* verify(e, |t| t.p1 == t.p2): see [tget] *)
 | NT (n : nat).
 
 (** ** string helpers *)
@@ -170,6 +217,7 @@ Fixpoint denote (fuel : nat) : pexpr -> str -> res (tree * str) :=
       bind (go p s) (fun x =>
         let v := consumed s (snd x) in
         if ci_reject pat v then Fail else Ok (TStr v, snd x))
+  | VerifyEq p1 p2 p => bind (go p s) (fun x => if verify_eq p1 p2 (fst x) then Ok x else Fail)
   | NT n => match fuel with O => Oof | S f => denote f (body n) s end
   end.
 
@@ -211,6 +259,7 @@ Definition den1 (fuel : nat) (e : pexpr) (s : str) : res (tree * str) :=
       bind (go p s) (fun x =>
         let v := consumed s (snd x) in
         if ci_reject pat v then Fail else Ok (TStr v, snd x))
+  | VerifyEq p1 p2 p => bind (go p s) (fun x => if verify_eq p1 p2 (fst x) then Ok x else Fail)
   | NT n => callnt fuel n s
   end.
 
@@ -235,6 +284,7 @@ Fixpoint enull (e : pexpr) : bool :=
   | Recognize p | Map _ p => enull p
   | TakeUntil _ _ => true
   | TakeExcept p _ => enull p
+  | VerifyEq _ _ p => enull p
   | NT n => nullb n
   end.
 
@@ -243,7 +293,7 @@ Fixpoint efirst (e : pexpr) : list nat :=
   | Tag _ | Chars0 _ | Chars1 _ => []
   | Seq a b | SeqL a b | SeqR a b => efirst a ++ (if enull a then efirst b else [])
   | Alt a b => efirst a ++ efirst b
-  | Many0 p | Many1 p | Opt p | Recognize p | Map _ p | TakeUntil p _ | TakeExcept p _ => efirst p
+  | Many0 p | Many1 p | Opt p | Recognize p | Map _ p | TakeUntil p _ | TakeExcept p _ | VerifyEq _ _ p => efirst p
   | SepBy0 sep p | SepBy1 sep p => efirst p ++ (if enull p then efirst sep else [])
   | NT n => [n]
   end.
